@@ -2,8 +2,9 @@
 # Run once after a fresh restore, offline: builds the instrumenter and both harness
 # binaries (warms the Go build cache so that the checks' incremental builds are fast).
 set -e
-. /verif/scripts/env.sh
-cd /verif
+ROOT=$(cd "$(dirname "$0")/.." && pwd)
+. "$ROOT/scripts/env.sh"
+cd "$ROOT"
 mkdir -p build evidence replays
 (cd simgen && go build -o simgen .)
 ./scripts/build.sh
